@@ -2,21 +2,27 @@ SHAPES = {0: 2, 1: 3, 2: 3, 3: 3, 4: 3, 5: 4, 6: 4, 7: 4, 8: 4, 9: 4, 10: 4, 11:
 
 def jobs(tier):
     out = []
-    # four reports (shapes 5..11) are not registered: one transposition job did not finish in 20 min
-    shapes = [0, 1, 2, 3, 4]
-    for s in shapes:
+    # four reports (shapes 5..11) are not registered: one transposition job did not finish in 20 min.
+    # Diagnostics per report: 1 everywhere; 0 and 2 for two reports (quick and thorough); 0 for three reports (thorough) --
+    # three reports with two diagnostics each did not finish in 40 min and are not registered.
+    for s in [0, 1, 2, 3, 4]:
         n = SHAPES[s]
         for pos in range(n - 1):
-            for nd in ([1] if (tier == "quick" or n == 4) else [0, 1, 2]):
+            nds = [1]
+            if n == 2:
+                nds = [0, 1, 2]
+            elif tier != "quick":
+                nds = [0, 1]
+            for nd in nds:
                 out.append({"name": "swap-s%d-p%d-d%d" % (s, pos, nd), "func": "VerifHarness_Swap",
                             "params": {"shape": s, "pos": pos, "ndiag": nd}, "unwind": 40, "reach": []})
     return out
 
 PROP = {
-    "level_text": "Bounded symbolic model checking of the real Summary.Report -> SortReports -> Dedup pipeline: for every job structure of <= 3 reports (thorough: also 0 and 2 diagnostics per report) and every adjacent transposition of two reports of different jobs, the solver shows that no values of the report fields make the final report list differ. Adjacent transpositions generate every realisable arrival order.",
+    "level_text": "Bounded symbolic model checking of the real Summary.Report -> SortReports -> Dedup pipeline: for every job structure of <= 3 reports (two reports: 0..2 diagnostics each; three reports: 1, thorough also 0) and every adjacent transposition of two reports of different jobs, the solver shows that no values of the report fields make the final report list differ. Adjacent transpositions generate every realisable arrival order.",
     "level_note": "Assumes the producibility invariants listed in the evidence (problem lines inside the rule, distinct rules of a file do not overlap, one job = one entry and one reporter, no repeated diagnostic inside a problem). The goroutine/channel plumbing of checkRules, data races and text rendering are outside the claim. Strings are one symbolic byte.",
     "runs": [{"pkg": "./internal/reporter", "harness": ["harness/C11/perm.go"], "intmode": True, "jobs": jobs}],
-    "bounds": {"reports": "<= 3 (4 reports: one job did not finish in 20 min, not registered)", "entries": 2, "jobs": "<= 4", "diagnostics per report": "quick 1, thorough 0..2 (n<=3)",
+    "bounds": {"reports": "<= 3 (4 reports: one job did not finish in 20 min, not registered)", "entries": 2, "jobs": "<= 4", "diagnostics per report": "1; 0 and 2 for two reports; thorough also 0 for three reports",
                "strings": "1 symbolic byte each (path, target, owner, reporter, summary, details, message)", "lines/columns": "1..9"},
     "assumptions": ["a problem's lines lie inside its rule's lines", "two entries with the same path name have the same symlink target and disjoint rule line ranges",
                     "reports of one job share path, owner, rule and reporter and keep their relative order"],
